@@ -82,7 +82,13 @@ def observe(c, typ, seed, samples, dose):
             same = measurement(typ, M, [M], False)
             r1 = np.asarray(same.poisson_noise(total_dose=dose, samples=samples, seed=seed).array, dtype=np.float64)
             r2 = np.asarray(same.poisson_noise(total_dose=dose, samples=samples, seed=seed).array, dtype=np.float64)
-            ev["same_object_repro_ok"] = bool(np.array_equal(r1, r2) and np.array_equal(r1, e))
+            # the same request in other clothes: the measurement through a copy / deepcopy / pickle, the dose as a NumPy scalar
+            # (NumPy integers are refused as seeds by validate_seeds - "Invalid type for `seeds`" - and are not offered)
+            from ..routes import reroute
+            twin = reroute(measurement(typ, M, [M], False), M + samples + (seed or 0))[0]
+            r3 = np.asarray(twin.poisson_noise(total_dose=(np.float64(dose) if isinstance(dose, float) else dose), samples=samples,
+                                               seed=seed).array, dtype=np.float64)
+            ev["same_object_repro_ok"] = bool(np.array_equal(r1, r2) and np.array_equal(r1, e) and np.array_equal(r3, e))
             e2, _ = noisy(typ, M, [M], False, seed, samples, dose)
             l2, _ = noisy(typ, M, chunks, True, seed, samples, dose)
             ev["repro_ok"] = bool(np.array_equal(e, e2) and np.array_equal(l, l2) and ev["same_object_repro_ok"])
